@@ -113,7 +113,9 @@ func Search(expr string, data any) (o Outcome) {
 			o = Outcome{Panic: fmt.Sprintf("%v\n%s", r, debug.Stack())}
 		}
 	}()
+	enterCall()
 	res, err := jmespath.Search(expr, data)
+	leaveCall()
 	finish(res, err, &o)
 	return o
 }
@@ -126,7 +128,9 @@ func Compile(expr string) (e *jmespath.Expression, o Outcome) {
 			o = Outcome{Panic: fmt.Sprintf("%v\n%s", r, debug.Stack())}
 		}
 	}()
+	enterCall()
 	e, err := jmespath.Compile(expr)
+	leaveCall()
 	if err != nil {
 		classify(err, &o)
 		o.NonNil = e != nil
@@ -156,7 +160,9 @@ func ExprSearch(e *jmespath.Expression, data any) (o Outcome) {
 			o = Outcome{Panic: fmt.Sprintf("%v\n%s", r, debug.Stack())}
 		}
 	}()
+	enterCall()
 	res, err := e.Search(data)
+	leaveCall()
 	finish(res, err, &o)
 	return o
 }
